@@ -2,7 +2,7 @@
    Only statements, each closed by [exact].  Model: Orm/Schema.v over Gen/ParseField.v (regenerated from
    wrapped_table.py / ormatic.py / wrapped_field.py on every run); Spec: Orm/SchemaSpec.v.
    [wfM] = the documented grammar; [topo M order] = the emission order lists every class once, parents first;
-   F = [F_attrnames], [F_classnames] (complement of the defect classes, see _refuted). *)
+   F = [F_attrnames], [F_inherited], [F_classnames] (complement of the defect classes, see _refuted). *)
 From Coq Require Import List String Ascii Bool ZArith Permutation.
 From Krrood Require Import Base.Sx Orm.SchemaStr Orm.SchemaSpec Gen.ParseField Orm.Schema Orm.SchemaProofs Orm.SchemaWf.
 Import ListNotations.
@@ -95,6 +95,8 @@ Example C06_refused_reserved : refused_as_specified M_reserved. Proof. exact ref
 Example C06_refused_pkname : refused_as_specified M_pkname. Proof. exact refused_pkname. Qed.
 Example C06_refused_discname : refused_as_specified M_discname. Proof. exact refused_discname. Qed.
 Example C06_refused_assocname : refused_as_specified M_assocname. Proof. exact refused_assocname. Qed.
+(* C06-n (5e556b1): the clash with a column of an ancestor's table is refused as well *)
+Example C06_refused_inhfkalias : refused_as_specified M_inhfkalias. Proof. exact refused_inhfkalias. Qed.
 
 (* C06-b was repaired in /repo (b804898): the former counter-model is now well-formed and read back as the Spec says *)
 Example C06_fixed_nobuiltin : wfM M_nobuiltin = true /\ inF M_nobuiltin = true /\ wf_imports (gen M_nobuiltin M_nobuiltin) = true
